@@ -335,6 +335,37 @@ theorem read_atomic (b : List Nat) (st : RSt) :
       · exact g2 e h n
     · simp only [List.foldl_cons]; rw [g3, h3]
 
+/-! ## Kinesis reader under the loop -/
+
+theorem rrun_append (st : RSt) (a b : List RAct) : rrun st (a ++ b) = rrun (rrun st a) b := by
+  simp [rrun, List.foldl_append]
+
+theorem kstep_is_rrun (k : KRd) (a : KAct) : ∃ ras, (kstep k a).1.r = rrun k.r ras := by
+  cases a with
+  | put s n => exact ⟨[], rfl⟩
+  | assign l => exact ⟨[.assign l], rfl⟩
+  | fail n => exact ⟨[], rfl⟩
+  | barrier n => exact ⟨[.barrier n], rfl⟩
+  | read =>
+    simp only [kstep]
+    cases hs : k.r.splits[k.idx]? with
+    | none => exact ⟨[], rfl⟩
+    | some sp =>
+      simp only
+      split
+      · exact ⟨[], rfl⟩
+      · exact ⟨[.read (List.replicate (min k.limit (totalOf k.totals sp.split - sp.cur)) sp.split)], rfl⟩
+
+theorem krun_is_rrun (as : List KAct) (k : KRd) : ∃ ras, (krun k as).r = rrun k.r ras := by
+  induction as generalizing k with
+  | nil => exact ⟨[], rfl⟩
+  | cons a as ih =>
+    obtain ⟨r1, h1⟩ := kstep_is_rrun k a
+    obtain ⟨r2, h2⟩ := ih (kstep k a).1
+    refine ⟨r1 ++ r2, ?_⟩
+    show (krun (kstep k a).1 as).r = _
+    rw [h2, h1, rrun_append]
+
 /-! ## Kinesis split tracker -/
 
 theorem knownId_iff (k : List Shard) (i : Nat) : knownId k i = true ↔ ∃ sh ∈ k, sh.id = i := by
